@@ -77,24 +77,9 @@ pub fn refill_step(burst: u32, rate: u32, tokens: f64, back_secs: u32) -> bool {
     // the reference time moves to `now`; the invariant is kept; tokens are never removed; never more than elapsed * rate is credited
     b.last_update >= before && inv(&b) && b.tokens >= tokens && b.tokens <= tokens + (back_secs as f64 + slack_secs()) * rate as f64
 }
-// (the elapsed time is a symbolic whole number of seconds: `nanos as f64 / 1e9` over a symbolic sub-second part is a float divider that CBMC did not
-// finish in 900 s; sub-second elapsed times are covered by the native cell below)
-vpv_cell!(#[kani::stub(std::time::Instant::now, stub_now_late)] c30_refill_rate1, "C30/TokenBucket::refill/rate = 1 (concrete), elapsed = any whole number of seconds: reference time moves to now, 0 <= tokens <= burst, tokens never removed, credit <= elapsed * rate", (burst: u32, tokens: f64, back_secs: u32), {
-    refill_step(burst, 1, tokens, back_secs) });
-vpv_cell!(#[kani::stub(std::time::Instant::now, stub_now_late)] c30_refill_rate50, "C30/TokenBucket::refill/rate = 50 (concrete), elapsed = any whole number of seconds: reference time moves to now, 0 <= tokens <= burst, tokens never removed, credit <= elapsed * rate", (burst: u32, tokens: f64, back_secs: u32), {
-    refill_step(burst, 50, tokens, back_secs) });
-vpv_cell!(#[kani::stub(std::time::Instant::now, stub_now_late)] c30_try_consume_rate1, "C30/TokenBucket::try_consume/rate = 1 (concrete): admits iff a whole token is available after refill and then removes exactly one", (burst: u32, tokens: f64, back_secs: u32), {
-    if back_secs > 900_000 { return true; }
-    let before = now_for_refill();
-    let last = match before.checked_sub(Duration::new(back_secs as u64, 0)) { Some(t) => t, None => return true };
-    let mut b = TokenBucket { tokens, last_update: last, max_tokens: burst as f64, refill_rate: 1.0 };
-    if !inv(&b) { return true; }
-    let mut r = TokenBucket { tokens, last_update: last, max_tokens: burst as f64, refill_rate: 1.0 };
-    r.refill();
-    let admitted = b.try_consume();
-    if cfg!(kani) { admitted == (r.tokens >= 1.0) && b.tokens == (if admitted { r.tokens - 1.0 } else { r.tokens }) && inv(&b) }
-    else { inv(&b) && (!admitted || r.tokens + 1.0 >= 1.0) }
-});
+// MEASURED: Kani cells for refill / try_consume at concrete rates 1 and 50 with symbolic bucket state and a symbolic whole number of elapsed seconds did
+// not finish in 900 s of CBMC each in three successive formulations (u64 -> f64 conversion, multiply, add, min over symbolic 64-bit floats, plus the
+// comparison against a recomputed bound), so the refill step is covered by the native stand-in below only.
 // sub-second elapsed times and repeated refills, natively (bounded stand-in): a bucket whose reference time lies d in the past is refilled TWICE in a
 // row; the total credit must stay below (time actually passed since the reference time) * rate — a refill that credits without advancing its reference time credits the same interval twice.
 vpv_native!(c30_refill_twice, "C30/TokenBucket::refill/two refills in a row credit an interval once: elapsed * rate <= credit <= (time actually passed) * rate (native enumeration: rates 1, 3, 50; elapsed 0..=2.5 s in 100 ms steps; 4 token levels)", {
@@ -145,4 +130,4 @@ vpv_native!(c30_check_tracked_clients, "C30/RateLimiter::check/a tracked client 
     } } } }
     ok
 });
-vpv_replay_table!(c30_new, c30_config_new, c30_remaining, c30_reset_after_rate0, c30_reset_after_full, c30_reset_after_positive_rate, c30_reset_after_rate1, c30_reset_after_rate50, c30_refill_rate1, c30_refill_rate50, c30_try_consume_rate1, c30_refill_twice, c30_check_tracked_clients);
+vpv_replay_table!(c30_new, c30_config_new, c30_remaining, c30_reset_after_rate0, c30_reset_after_full, c30_reset_after_positive_rate, c30_reset_after_rate1, c30_reset_after_rate50, c30_refill_twice, c30_check_tracked_clients);
